@@ -1458,7 +1458,8 @@ class ComplexModulus(Operator):
         :math:`\mathbb{R}^2`, but not complex-linear.
         """
         op = self
-        x = self.domain.element(x)
+        # Copy to make the derivative independent of later changes of `x`
+        x = self.domain.element(x).copy()
 
         class ComplexModulusDerivative(Operator):
 
@@ -1660,7 +1661,8 @@ class ComplexModulusSquared(Operator):
         :math:`\mathbb{R}^2`, but not complex-linear.
         """
         op = self
-        x = self.domain.element(x)
+        # Copy to make the derivative independent of later changes of `x`
+        x = self.domain.element(x).copy()
 
         class ComplexModulusSquaredDerivative(Operator):
 
